@@ -216,6 +216,27 @@ _add5("C15", "The *_action directives keep their flags through the shared parser
 _add5("C16", "SMTPCode and SMTPEnchCode classify with the same predicate (R2); in tryDelivery the error that is classified is the one stored as the recipient's status on every path (R3c).")
 _add5("C18", "Body / Commit errors are recorded for exactly the accepted recipients (C01.R2 as R12); the reported status is the one of the attempt that gave the recipient up (C16.R3c as R13).")
 _add5("C20", "Every node entering the tree, and every macro definition entering the macro table, passed expandMacros since it was read (R5); one pass of the environment clean-up expression leaves nothing the same expression matches, decided for the constant pattern over all strings of up to seven tokens of its alphabet (R7).")
+# ---- seventh round (DESIGN.md §R.15)
+for _id in list(CLAIMED):
+    tech, text, note, ref = CLAIMED[_id]
+    CLAIMED[_id] = (tech, text, note, ref + ", §R.15")
+_add5("C01", "Optional fields of the failure report never abort the report (R10); the wheel callback never waits (C02.R10 as R11); the spooled record differs from the live one only in the stripped connection state (C10.R1c as R12).")
+_add5("C02", "queueDelivery.Commit cannot fail once Body stored the message (R11); a failure report's spool key is freshly generated (R12).")
+_add5("C03", "NewSession never waits for the previous session's message lock – TryLock or a goroutine of its own (R9); only Body / BodyNonAtomic write a target's bodyFailed flag (R10).")
+_add5("C04", "Every deliver_to target that was constructed is appended to its block (R10).")
+_add5("C05", "smtpconn.C.Close leaves no usable client behind, whatever QUIT was answered (R12); policy verdicts wait for their lookup with the caller's own context (R13).")
+_add5("C06", "A (check state, recipient) pair does not stay on record when the check refused the recipient (R9); a check state sees the body once however many blocks reference the check (R10); MsgMetadata.DeepCopy carries every field (R11).")
+_add5("C07", "Names reach the case-sensitive public suffix list lower-cased (R7b); whether a From field was seen is a flag, not the collected value (R10); merged authentication results only grow (R11); the From field is parsed as transmitted, not after RFC 2047 decoding (R12).")
+_add5("C10", "Every store into message metadata inside the queue targets a DeepCopy result (R8); Body keeps a copy of the header, not the caller's value (R3f).")
+_add5("C11", "The destination permit is released under the string it was taken under: the domain parameter reaches mxConn.domain unassigned (R10).")
+_add5("C12", "Loading a message for a retry removes spool files only on the not-exist edge (C02.R9 as R13).")
+_add5("C13", "A truncated DNS reply is never handed on as the answer (R5e); the resolver returns the whole TLSA RRset (R5f); the unauthenticated TLS retry keeps the configuration with its ServerName (R8).")
+_add5("C14", "Every provider that decides by asking further providers reports success only as a provider's nil answer – auth.plain_separate included (R3b); a package-local user-name normaliser applies the PRECIS profile on every path (R1); the update statement gets the insert statement's argument list (R3g).")
+_add5("C15", "table.file's reload stamp is a modification time (R12); framework/address has no unproven index or slice operation – a panicking check goroutine would count as passed (C17.R9 as R13).")
+_add5("C16", "Errors built in the limits packages keep the wrapped error in their chain (%w) (R4b); the report's Status line is printed from the stored status unmodified (R7); a named boolean or a delegation to SMTPCode with the class digits is understood in the helpers (R2).")
+_add5("C17", "The ASCII letters of a domain are lowered only after NFC normalisation (R4c); the compiler's remaining bounds checks in framework/address are discharged by dominating guards (R9).")
+_add5("C19", "On the failed-QUIT edge smtpconn.C.Close closes the socket itself (R11); a connection's lastUseAt is stamped when its own transaction ends, not after the join of all connections (R12).")
+_add5("C20", "Macro expansion is bounded: after a replacement list is spliced in, the list's length is compared with a bound (R3c); the import budget is shared by reference with imported files (R3b); numLineBreaks counts exactly the lexer's line feed (R6c).")
 for _id in list(CLAIMED):
     tech, text, note, ref = CLAIMED[_id]
     CLAIMED[_id] = (tech, text, note + "; rules are form-agnostic (named booleans, if/switch, loop forms, extracted helpers, renamed unexported functions and fields – DESIGN.md §R.7) and measured against a corpus of 35 behaviour-preserving refactorings (functions the reference tree did not have are read as part of their callers – §R.10) (refactorings/, refacall.sh)", ref)
